@@ -92,6 +92,7 @@ func cmdAPI(args []string) {
 	mode := fs.String("mode", "gates", "gates | load")
 	at := fs.Uint("at", 0, "height c around which the gate schedules are played (block c+1 must be rated, PIP-10 active)")
 	readers := fs.Int("readers", 4, "API client goroutines (load mode)")
+	only := fs.String("only", "", "gates mode: run only these schedule numbers (comma separated, e.g. 7); default all")
 	fs.Parse(args)
 	os.MkdirAll(*work, 0777)
 	run.InitEnv(*work)
@@ -159,10 +160,21 @@ func cmdAPI(args []string) {
 		return proj.Digest(d) == refDigest[s.Tip]
 	}
 
+	want := func(n string) bool {
+		if *only == "" {
+			return true
+		}
+		for _, x := range strings.Split(*only, ",") {
+			if x == n {
+				return true
+			}
+		}
+		return false
+	}
 	if *mode == "gates" {
 		cH := uint32(*at)
 		// ---- schedule 1: a reader asks for the synced height while the sync goroutine sits between the bump and COMMIT
-		{
+		if want("1") {
 			g := &gate{}
 			node.VerifGate = g.hook
 			r := newRunner("early")
@@ -187,7 +199,7 @@ func cmdAPI(args []string) {
 		}
 		// ---- schedule 2: a rich-list reader passes the cache check for height c, is suspended, the sync goroutine
 		//      processes block c+1 (asks for c as well), then the reader resumes (gate: data collected, height not yet published)
-		{
+		if want("2") {
 			g := &gate{}
 			node.VerifGate = g.hook
 			r := newRunner("double")
@@ -223,7 +235,7 @@ func cmdAPI(args []string) {
 		}
 		// ---- schedule 3 (Api.tla SyncCommitFail): COMMIT of block c fails once; a reader asks for the synced height right
 		//      after the failed COMMIT returned, before the sync goroutine has handled the error
-		{
+		if want("3") {
 			g := &gate{}
 			node.VerifGate = g.hook
 			pegnet.VerifWrapDB = sqlwrap.Wrap
@@ -270,59 +282,61 @@ func cmdAPI(args []string) {
 		//      (cache miss); while it is inside the cache function (a) its client hangs up (request context cancelled) resp.
 		//      (b) its read of pn_rate fails once. Whatever happens to the request, the sync goroutine must price block c+1
 		//      exactly as it would have without the reader.
-		for _, variant := range []string{"reader-cancelled-in-cache", "reader-db-error-in-cache"} {
-			g := &gate{}
-			node.VerifGate = g.hook
-			var fmu sync.Mutex
-			armed, injected := false, false
-			if variant == "reader-db-error-in-cache" {
-				pegnet.VerifWrapDB = sqlwrap.Wrap
-				sqlwrap.Ctl.Hook = func(ev *sqlwrap.Event) error {
-					fmu.Lock()
-					defer fmu.Unlock()
-					if armed && !injected && ev.Kind == "query" && strings.Contains(ev.SQL, "FROM pn_rate WHERE height") && inAPIGoroutine() {
-						injected = true
-						return errors.New("disk I/O error (injected by verif)")
+		if want("4") {
+			for _, variant := range []string{"reader-cancelled-in-cache", "reader-db-error-in-cache"} {
+				g := &gate{}
+				node.VerifGate = g.hook
+				var fmu sync.Mutex
+				armed, injected := false, false
+				if variant == "reader-db-error-in-cache" {
+					pegnet.VerifWrapDB = sqlwrap.Wrap
+					sqlwrap.Ctl.Hook = func(ev *sqlwrap.Event) error {
+						fmu.Lock()
+						defer fmu.Unlock()
+						if armed && !injected && ev.Kind == "query" && strings.Contains(ev.SQL, "FROM pn_rate WHERE height") && inAPIGoroutine() {
+							injected = true
+							return errors.New("disk I/O error (injected by verif)")
+						}
+						return nil
 					}
-					return nil
 				}
-			}
-			r := newRunner(variant)
-			for h := config.PegnetActivation + 1; h <= cH; h++ {
-				r.Advance(h, 20*time.Second)
-			}
-			fmu.Lock()
-			armed = true
-			fmu.Unlock()
-			g.arm("avg:miss", true)
-			cancel, done := r.CallCancel("get-rich-list", map[string]interface{}{"asset": "PEG", "count": 5})
-			reached := g.wait(3 * time.Second)
-			if reached && variant == "reader-cancelled-in-cache" {
+				r := newRunner(variant)
+				for h := config.PegnetActivation + 1; h <= cH; h++ {
+					r.Advance(h, 20*time.Second)
+				}
+				fmu.Lock()
+				armed = true
+				fmu.Unlock()
+				g.arm("avg:miss", true)
+				cancel, done := r.CallCancel("get-rich-list", map[string]interface{}{"asset": "PEG", "count": 5})
+				reached := g.wait(3 * time.Second)
+				if reached && variant == "reader-cancelled-in-cache" {
+					cancel()
+					time.Sleep(150 * time.Millisecond) // let the server notice that the client is gone
+				}
+				g.open()
+				select {
+				case <-done:
+				case <-time.After(10 * time.Second):
+				}
+				time.Sleep(50 * time.Millisecond)
+				eq := finish(r, cH+1)
+				fmu.Lock()
+				inj := injected
+				fmu.Unlock()
+				emit(map[string]interface{}{"ev": "ApiExp", "schedule": variant, "h": cH, "feasible": reached && (inj || variant == "reader-cancelled-in-cache"),
+					"reachedGate": reached, "seen": 0, "committed": 0, "equal": eq})
 				cancel()
-				time.Sleep(150 * time.Millisecond) // let the server notice that the client is gone
+				r.StopAPI()
+				r.StopNode()
+				r.Srv.Stop()
+				sqlwrap.Ctl.Hook = nil
+				pegnet.VerifWrapDB = nil
 			}
-			g.open()
-			select {
-			case <-done:
-			case <-time.After(10 * time.Second):
-			}
-			time.Sleep(50 * time.Millisecond)
-			eq := finish(r, cH+1)
-			fmu.Lock()
-			inj := injected
-			fmu.Unlock()
-			emit(map[string]interface{}{"ev": "ApiExp", "schedule": variant, "h": cH, "feasible": reached && (inj || variant == "reader-cancelled-in-cache"),
-				"reachedGate": reached, "seen": 0, "committed": 0, "equal": eq})
-			cancel()
-			r.StopAPI()
-			r.StopNode()
-			r.Srv.Stop()
-			sqlwrap.Ctl.Hook = nil
-			pegnet.VerifWrapDB = nil
 		}
 		// ---- schedule 5: no suspension at all - the read methods that use the averages are simply called between blocks
 		//      (after block h is committed, before h+1 arrives), for every asset. Reads may leave nothing behind.
-		{
+		if want("5") {
 			r := newRunner("between")
 			for h := config.PegnetActivation + 1; h < cH; h++ {
 				r.Advance(h, 20*time.Second)
@@ -353,7 +367,7 @@ func cmdAPI(args []string) {
 		}
 		// ---- schedule 6: the rich-list methods are called while the sync goroutine has applied block c+1 (its own averages request
 		//      done) but not yet committed it - the reader still sees c as the tip
-		{
+		if want("6") {
 			g := &gate{}
 			node.VerifGate = g.hook
 			r := newRunner("midblock")
@@ -372,6 +386,40 @@ func cmdAPI(args []string) {
 			g.open()
 			eq := finish(r, cH+1)
 			emit(map[string]interface{}{"ev": "ApiExp", "schedule": "reads-before-commit", "h": cH, "feasible": reached,
+				"seen": 0, "committed": 0, "equal": eq})
+			r.StopAPI()
+			r.StopNode()
+			r.Srv.Stop()
+		}
+		// ---- schedule 7: a rich-list reader that read the synced height c-1 is held back; blocks c and then c+1 arrive; while the sync
+		//      goroutine is between its own averages request and the first held batch of block c+1, the stale reader goes on and asks
+		//      for the averages of an older height. The batches of block c+1 must be priced with what the sync goroutine had asked for.
+		if want("7") {
+			gA, gS := &gate{}, &gate{}
+			node.VerifGate = func(p string) { gA.hook(p); gS.hook(p) }
+			r := newRunner("stale-reader")
+			for h := config.PegnetActivation + 1; h < cH; h++ {
+				r.Advance(h, 20*time.Second)
+			}
+			gA.arm("api:height-read", true)
+			done := make(chan struct{})
+			go func() {
+				r.Call("get-rich-list", map[string]interface{}{"asset": "PEG", "count": 5}, nil)
+				close(done)
+			}()
+			reachedA := gA.wait(3 * time.Second)
+			okc := r.Advance(cH, 20*time.Second).OK
+			gS.arm("hold:batch", false)
+			r.Srv.SetTip(cH + 1)
+			reachedS := gS.wait(5 * time.Second)
+			gA.open()
+			select {
+			case <-done:
+			case <-time.After(10 * time.Second):
+			}
+			gS.open()
+			eq := okc && finish(r, cH+1)
+			emit(map[string]interface{}{"ev": "ApiExp", "schedule": "stale-reader-during-holding", "h": cH, "feasible": reachedA && reachedS,
 				"seen": 0, "committed": 0, "equal": eq})
 			r.StopAPI()
 			r.StopNode()
